@@ -1032,3 +1032,52 @@ func printTop(sb *strings.Builder, t *Term, named map[int]string) {
 		named[t.id] = saved
 	}
 }
+
+// ArrEq decides equality of two store chains over the same root array whose indices are all of the
+// form base+constant (same base): the result is the conjunction of the element equalities at the
+// written offsets. Falls back to extensional equality otherwise.
+func ArrEq(a, b *Term) *Term {
+	if a == b {
+		return True
+	}
+	type upd struct {
+		idx *Term
+		val *Term
+	}
+	collect := func(t *Term) (*Term, []upd) {
+		var us []upd
+		for t.op == "store" {
+			us = append(us, upd{t.args[1], t.args[2]})
+			t = t.args[0]
+		}
+		return t, us
+	}
+	ra, ua := collect(a)
+	rb, ub := collect(b)
+	if ra != rb || len(ua)+len(ub) == 0 || len(ua)+len(ub) > 400 {
+		return Eq(a, b)
+	}
+	var base *Term
+	haveBase := false
+	offs := map[string]*Term{} // offset const -> index term
+	add := func(us []upd) bool {
+		for _, u := range us {
+			bt, c := splitOff(u.idx)
+			if !haveBase {
+				base, haveBase = bt, true
+			} else if bt != base {
+				return false
+			}
+			offs[c.Text(16)] = u.idx
+		}
+		return true
+	}
+	if !add(ua) || !add(ub) {
+		return Eq(a, b)
+	}
+	var cs []*Term
+	for _, ix := range offs {
+		cs = append(cs, Eq(Select(a, ix), Select(b, ix)))
+	}
+	return And(cs...)
+}
